@@ -16,10 +16,10 @@ NULL_VARIANTS = [(casing, path + "+nulls", form) for casing, path, form in VARIA
 def rtjson_event(args):
     case, (casing, path, form) = args
     w = msgev.world()
-    schema, C = w["schema"], w["bp"]
+    schema, C = w["schema"], msgev.classes_for(case)
     ty, val = case["ty"], case["val"]
     ev = {"op": "rtjson", "ty": ty, "val": val, "casing": casing, "path": path, "form": form, "res": "ok", "dumps": "ok", "obs": val, "eq": False,
-          "samebytes": False, "b_back": [], "b_orig": [], "tree": {"t": "obj", "kv": []}, "case": {"ty": ty, "tag": case.get("tag", ""), "variant": [casing, path, form]}}
+          "samebytes": False, "b_back": [], "b_orig": [], "tree": {"t": "obj", "kv": []}, "case": {"ty": ty, "tag": case.get("tag", ""), "variant": [casing, path, form], "world": case.get("world", "dyn")}}
     try:
         m = dyn.conc_bp(schema, C, ty, val)
         cas = getattr(betterproto.Casing, casing)
@@ -82,4 +82,6 @@ def run(ctx):
 
 
 def redrive(ev):
-    return rtjson_event(({"ty": ev["ty"], "val": ev["val"], "tag": ev.get("case", {}).get("tag", "")}, tuple(ev["case"]["variant"])))
+    if ev.get("case", {}).get("world") == "gen":
+        msgev.gen_world()
+    return rtjson_event(({"ty": ev["ty"], "val": ev["val"], "tag": ev.get("case", {}).get("tag", ""), "world": ev.get("case", {}).get("world", "dyn")}, tuple(ev["case"]["variant"])))
